@@ -750,15 +750,31 @@ inline Verdict choose_geometry(Choices& c, CaseLog& log, GeoSource& src)
 #ifdef VERIF_HAVE_GEOGEN
     {
         log.label("geo-api");
-        geogen::Limits lim;
-        auto g = geogen::generate(c, log, lim);
+        geogen::Limits lim;  // defaults exclude the known-finding classes
         try
         {
+            auto g = geogen::generate(c, log, lim);
             src.owned = make_fixture("api", geogen::build_input(g));
+        }
+        catch (geogen::Excluded const&)
+        {
+            log.label("geo-api-excluded-known");
+            return Verdict::trivial;
+        }
+        catch (celeritas::DebugError const&)
+        {
+            // only in the (unregistered) CELERITAS_DEBUG=ON development build
+            log.label("geo-api-debug-assert");
+            return Verdict::trivial;
         }
         catch (celeritas::RuntimeError const& e)
         {
             return Verdict::rejected;
+        }
+        if (src.owned->model.duplicate_surfaces)
+        {
+            log.label("geo-api-duplicate-surfaces");
+            return Verdict::trivial;
         }
         src.fix = src.owned.get();
         src.rich = true;
